@@ -131,6 +131,7 @@ class OutRec:
     suffix: str = ""
     etype: str = "S"
     core_etype: str = "S"
+    flags: frozenset = frozenset()
 
     @property
     def loc(self) -> str:
@@ -360,6 +361,63 @@ class JModel:
             return "S"
         return "S"
 
+    # ------------------------------------------------------------------ taint flags
+    # attribute name -> flag; filters that remove every flag
+    FLAG_SOURCES: Dict[str, str] = {}
+    FLAG_SANITISERS = ("e", "escape", "forceescape", "striptags", "urlencode", "length", "count",
+                       "int", "float", "wordcount", "tojson")
+
+    def flags(self, node, fenv: Dict[str, frozenset]) -> frozenset:
+        fl = lambda n: self.flags(n, fenv)  # noqa
+        if node is None:
+            return frozenset()
+        if isinstance(node, N.Name):
+            return fenv.get(node.name, frozenset())
+        if isinstance(node, N.Getattr):
+            base = fl(node.node)
+            if node.attr in self.FLAG_SOURCES:
+                return base | {self.FLAG_SOURCES[node.attr]}
+            return frozenset()   # another attribute of the object: not the literal-bearing text
+        if isinstance(node, N.Getitem):
+            return fl(node.node)
+        if isinstance(node, N.Filter):
+            if node.name in self.FLAG_SANITISERS:
+                return frozenset()
+            out = fl(node.node)
+            for a in node.args:
+                out |= fl(a)
+            return out
+        if isinstance(node, N.Test):
+            return frozenset()
+        if isinstance(node, N.Compare):
+            return frozenset()
+        if isinstance(node, N.Not):
+            return frozenset()
+        if isinstance(node, N.CondExpr):
+            return fl(node.expr1) | fl(node.expr2)
+        if isinstance(node, (N.And, N.Or)):
+            return fl(node.left) | fl(node.right)
+        if isinstance(node, (N.Add, N.Sub, N.Mul, N.Div, N.FloorDiv, N.Mod, N.Pow)):
+            return fl(node.left) | fl(node.right)
+        if isinstance(node, N.Concat):
+            out = frozenset()
+            for x in node.nodes:
+                out |= fl(x)
+            return out
+        if isinstance(node, (N.List, N.Tuple)):
+            out = frozenset()
+            for x in node.items:
+                out |= fl(x)
+            return out
+        if isinstance(node, N.Call):
+            out = frozenset()
+            for a in list(node.args) + [k.value for k in node.kwargs]:
+                out |= fl(a)
+            if isinstance(node.node, N.Getattr):   # "...".format(x), x.strip()
+                out |= fl(node.node.node)
+            return out
+        return frozenset()
+
     # ------------------------------------------------------------------ raw view
     def _walk_file(self, name: str) -> Tuple[List[OutRec], List[LitRec]]:
         w = _Walker(self, page="", inline=False)
@@ -418,14 +476,15 @@ class JModel:
 
 class Env:
     """name -> symbolic value (s) and abstract type (t)."""
-    __slots__ = ("s", "t")
+    __slots__ = ("s", "t", "f")
 
-    def __init__(self, s=None, t=None):
+    def __init__(self, s=None, t=None, f=None):
         self.s = dict(s or {})
         self.t = dict(t or {})
+        self.f = dict(f or {})
 
     def copy(self):
-        return Env(self.s, self.t)
+        return Env(self.s, self.t, self.f)
 
 
 class _Walker:
@@ -463,6 +522,8 @@ class _Walker:
             b = v2 if v2 is not None else "<undefined>"
             env.s[k] = f"({a} if {test} else {b})"
             env.t[k] = JModel.join_type(e1.t.get(k, "S"), e2.t.get(k, "S"))
+        for k in set(e1.f) | set(e2.f):
+            env.f[k] = e1.f.get(k, frozenset()) | e2.f.get(k, frozenset())
 
     def walk(self, n, tname, env: Env, conds, loops, macros, st: HtmlState):
         jm = self.jm
@@ -486,6 +547,7 @@ class _Walker:
                 if isinstance(tg, N.Name):
                     e2.s[tg.name] = f"{it}[*]" if len(targets) == 1 else f"{it}[*].{tg.name}"
                     e2.t[tg.name] = {"EL": "E", "U": "U"}.get(ityp, "S") if len(targets) == 1 else "S"
+                    e2.f[tg.name] = self.jm.flags(n.iter, env.f)
             e2.s["loop"] = "loop"
             tn = ",".join(t.name for t in targets if isinstance(t, N.Name))
             self.walk_nodes(n.body, tname, e2, conds, loops + [(tn, it)], macros, st)
@@ -511,6 +573,7 @@ class _Walker:
         elif isinstance(n, N.Assign):
             if isinstance(n.target, N.Name):
                 v, t = sym(n.node, env.s), self.etype(n.node, env)
+                env.f[n.target.name] = self.jm.flags(n.node, env.f)
                 env.s[n.target.name] = v
                 env.t[n.target.name] = t
         elif isinstance(n, N.AssignBlock):
@@ -526,6 +589,7 @@ class _Walker:
                 if isinstance(tg, N.Name):
                     e2.s[tg.name] = sym(v, env.s)
                     e2.t[tg.name] = self.etype(v, env)
+                    e2.f[tg.name] = self.jm.flags(v, env.f)
             self.walk_nodes(n.body, tname, e2, conds, loops, macros, st)
         elif isinstance(n, (N.CallBlock, N.FilterBlock, N.Scope, N.ScopedEvalContextModifier)):
             self.walk_nodes(getattr(n, "body", []), tname, env, conds, loops, macros, st)
@@ -573,6 +637,7 @@ class _Walker:
         rec = OutRec(tname, x.lineno, x, sym(x), sym(x, env.s), [f.name for f in fs], st.context(),
                      st.tag, list(conds), list(loops), list(macros), self.page, prefix, suffix)
         rec.etype = self.etype(x, env)
+        rec.flags = self.jm.flags(x, env.f)
         rec.core_etype = self.etype(core, env)
         self.outs.append(rec)
 
@@ -621,9 +686,11 @@ class _Walker:
             if i < len(params):
                 e2.s[params[i]] = sym(a, env.s)
                 e2.t[params[i]] = self.etype(a, env)
+                e2.f[params[i]] = self.jm.flags(a, env.f)
         for k in call.kwargs:
             e2.s[k.key] = sym(k.value, env.s)
             e2.t[k.key] = self.etype(k.value, env)
+            e2.f[k.key] = self.jm.flags(k.value, env.f)
         # nested macro calls inside the arguments
         for a in list(call.args) + [k.value for k in call.kwargs]:
             self.scan_calls(a, tname, env, conds, loops, macros, st)
